@@ -115,6 +115,72 @@ Section Map.
     run_generations p' inputs.
 End Map.
 
+(* ---------- a second map into the run folder of a first one (cleanup=False) ----------
+   RunInfo.create(..., cleanup=False) -> _compare_to_previous_run_info: the new inputs must equal the inputs of
+   the previous run (same names, same values) and the defaults of the (sub)pipeline must equal the stored ones
+   (shapes / MapSpecs are trivially equal for scalar pipelines); otherwise ValueError.  Then run_map: a function
+   all of whose outputs already exist in the folder is NOT executed, its stored outputs are used. *)
+Definition dict_eqb (a b : alist) : bool :=
+  (length (dedup (akeys a)) =? length (dedup (akeys b)))
+  && forallb (fun k => match aget a k, aget b k with Some x, Some y => str_eqb x y | _, _ => false end) (akeys a)
+  && forallb (fun k => ahas a k) (akeys b).
+(* Pipeline.defaults as a dict (a later entry wins) *)
+Definition defaults_dict (p : pipeline) : alist := map (fun k => (k, match pdefault p k with Some v => v | None => [] end))
+                                                      (dedup (akeys (pdefaults p))).
+
+Section Map2.
+  Variable body : str -> alist -> result str.
+  Variable pick : str -> str -> str.
+
+  Definition map_step_resume (p : pipeline) (inputs : alist) (acc : result (alist * list call)) (n : str)
+    : result (alist * list call) :=
+    do sl <- acc;
+    let (store, lg) := sl in
+    match node_func p n with
+    | None => Ok (store, lg)
+    | Some f =>
+        do args <- map_args p inputs store f;              (* _func_kwargs runs before _execute_single *)
+        if forallb (ahas store) (outs f) then Ok (store, lg)     (* all outputs exist: loaded, not executed *)
+        else
+          do r <- body (fname f) args;
+          Ok (fold_left (fun s o => aset s o (route pick f o r)) (outs f) store, lg ++ [(fname f, args)])
+    end.
+
+  Definition run_generations_from (p : pipeline) (inputs files : alist) : result (alist * list call) :=
+    match topo_generations (fgraph p) with
+    | None => Err OtherError
+    | Some layers => fold_left (map_step_resume p inputs) (concat layers) (Ok (files, []))
+    end.
+
+  Definition prepare (p : pipeline) (inputs : alist) (S : option (list str)) (auto : bool) : result pipeline :=
+    do p' <- (if auto || match S with Some _ => true | None => false end
+              then subpipeline p (akeys inputs) S else Ok p);
+    do _ <- validate_complete_inputs p' inputs;
+    Ok p'.
+
+  (* map(inputs1, F, output_names=S1, auto_subpipeline=a1) ; map(inputs2, F, ..., cleanup=False).
+     Result: the observation of the first run and, when it succeeded, of the second one (its results restricted
+     to the outputs of its own (sub)pipeline, and the calls it made) *)
+  Definition map_twice (p : pipeline) (in1 : alist) (S1 : option (list str)) (a1 : bool)
+                       (in2 : alist) (S2 : option (list str)) (a2 : bool)
+    : result (alist * list call) * option (result (alist * list call)) :=
+    match prepare p in1 S1 a1 with
+    | Err e => (Err e, None)
+    | Ok p1 =>
+        match run_generations_from p1 in1 [] with
+        | Err e => (Err e, None)
+        | Ok (files, lg1) =>
+            (Ok (files, lg1),
+             Some (do p2 <- prepare p in2 S2 a2;
+                   if negb (dict_eqb in2 in1) then Err ValueError              (* Inputs do not match previous run *)
+                   else if negb (dict_eqb (defaults_dict p2) (defaults_dict p1)) then Err ValueError
+                   else
+                     do r <- run_generations_from p2 in2 files;
+                     Ok (filter (fun kv => is_output p2 (fst kv)) (fst r), snd r)))
+        end
+    end.
+End Map2.
+
 (* ---------- specification (property text) ---------- *)
 (* provided names as keywords (the values are irrelevant for which functions are needed) *)
 Definition kw_of (I : list str) : alist := map (fun n => (n, [])) I.
